@@ -1,0 +1,140 @@
+//! Verification seam, compiled only under `--cfg folo_verif` (never in a normal build).
+//!
+//! Lets an out-of-tree harness run the real Linux platform code over an in-memory stand-in for
+//! the kernel's text interfaces, and exercise the real affinity mask type. Nothing here contains
+//! logic of its own: every item forwards to the production code it exposes.
+
+use std::fmt::Debug;
+use std::num::NonZero;
+use std::sync::Arc;
+
+use crate::pal::linux::{BindingsFacade, BuildTargetPlatform, CpuMask, FilesystemFacade};
+use crate::pal::{AbstractProcessor, Platform};
+use crate::{EfficiencyClass, MemoryRegionId, ProcessorId, RelativeSpeed};
+
+/// Public mirror of the crate-private `Filesystem` trait (same methods, same meaning), so that a
+/// harness outside this crate can supply the file contents.
+pub trait VerifFilesystem: Debug + Send + Sync + 'static {
+    fn get_cpuinfo_contents(&self) -> String;
+    fn get_possible_cpus_contents(&self) -> Option<String>;
+    fn get_online_cpus_contents(&self) -> Option<String>;
+    fn get_numa_node_possible_contents(&self) -> Option<String>;
+    fn get_numa_node_cpulist_contents(&self, node_index: u32) -> Option<String>;
+    fn get_cpu_online_contents(&self, cpu_index: u32) -> Option<String>;
+    fn get_proc_self_status_contents(&self) -> String;
+    fn get_proc_self_cgroup(&self) -> Option<String>;
+    fn get_v1_cgroup_cpu_quota(&self, cgroup_name: &str) -> Option<String>;
+    fn get_v1_cgroup_cpu_period(&self, cgroup_name: &str) -> Option<String>;
+    fn get_v2_cgroup_cpu_quota_and_period(&self, cgroup_name: &str) -> Option<String>;
+}
+
+/// One processor as the Linux platform reports it.
+#[derive(Clone, Debug)]
+pub struct VerifProcessor {
+    pub id: ProcessorId,
+    pub memory_region_id: MemoryRegionId,
+    pub efficiency_class: EfficiencyClass,
+    pub relative_speed: RelativeSpeed,
+    pub model: Option<String>,
+}
+
+/// Everything the Linux platform derives from the kernel's text interfaces.
+#[derive(Clone, Debug)]
+pub struct VerifInventory {
+    /// `Platform::get_all_processors()`, in the order returned.
+    pub processors: Vec<VerifProcessor>,
+    pub max_processor_id: ProcessorId,
+    pub max_memory_region_id: MemoryRegionId,
+    pub max_processor_time: f64,
+    pub active_processor_count: usize,
+}
+
+/// The real `BuildTargetPlatform` for Linux, over a caller-supplied filesystem. System calls go
+/// to the real bindings; building the inventory makes none.
+#[derive(Debug)]
+pub struct VerifPlatform {
+    inner: BuildTargetPlatform,
+}
+
+impl VerifPlatform {
+    #[must_use]
+    pub fn new(fs: Arc<dyn VerifFilesystem>) -> Self {
+        Self {
+            inner: BuildTargetPlatform::new(BindingsFacade::target(), FilesystemFacade::Verif(fs)),
+        }
+    }
+
+    #[must_use]
+    pub fn inventory(&self) -> VerifInventory {
+        VerifInventory {
+            processors: self
+                .inner
+                .get_all_processors()
+                .iter()
+                .map(|p| VerifProcessor {
+                    id: p.id(),
+                    memory_region_id: p.memory_region_id(),
+                    efficiency_class: p.efficiency_class(),
+                    relative_speed: p.relative_speed(),
+                    model: p.model().map(str::to_string),
+                })
+                .collect(),
+            max_processor_id: self.inner.max_processor_id(),
+            max_memory_region_id: self.inner.max_memory_region_id(),
+            max_processor_time: self.inner.max_processor_time(),
+            active_processor_count: self.inner.active_processor_count(),
+        }
+    }
+
+    /// Gives the platform the `'static` lifetime that `PlatformFacade::Target` asks for, by
+    /// leaking it. Used by `SystemHardware::verif_from_linux()` only.
+    pub(crate) fn leak(self) -> &'static BuildTargetPlatform {
+        Box::leak(Box::new(self.inner))
+    }
+}
+
+/// The real `CpuMask`, with the operations a harness needs made reachable.
+#[derive(Clone, Debug, Eq, PartialEq)]
+pub struct VerifCpuMask(CpuMask);
+
+impl VerifCpuMask {
+    #[must_use]
+    pub fn new() -> Self {
+        Self(CpuMask::new())
+    }
+
+    #[must_use]
+    pub fn with_words(words: NonZero<usize>) -> Self {
+        Self(CpuMask::with_words(words))
+    }
+
+    #[must_use]
+    pub fn words(&self) -> NonZero<usize> {
+        self.0.words()
+    }
+
+    #[must_use]
+    pub fn len_bytes(&self) -> usize {
+        self.0.len_bytes()
+    }
+
+    pub fn insert(&mut self, processor_id: ProcessorId) {
+        self.0.insert(processor_id);
+    }
+
+    #[must_use]
+    pub fn contains(&self, processor_id: ProcessorId) -> bool {
+        self.0.contains(processor_id)
+    }
+
+    #[must_use]
+    pub fn processor_ids(&self) -> Vec<ProcessorId> {
+        self.0.processor_ids().collect()
+    }
+}
+
+impl Default for VerifCpuMask {
+    fn default() -> Self {
+        Self(CpuMask::default())
+    }
+}
